@@ -77,14 +77,14 @@ func (s *Service) Proposal(ctx context.Context,
 				} else {
 					providerGraffiti = bytes.ReplaceAll(providerGraffiti, []byte("{{CLIENT}}"), []byte(nodeClientResponse.Data))
 				}
-				if len(providerGraffiti) > 32 {
-					providerGraffiti = providerGraffiti[0:32]
-				}
+				// Graffiti is exactly 32 bytes: the result of the replacement is truncated or zero-padded.
+				var graffiti [32]byte
+				copy(graffiti[:], providerGraffiti)
 				// Replace entire opts structure so the mutated graffiti does not leak to other providers.
 				opts = &api.ProposalOpts{
 					Slot:                   opts.Slot,
 					RandaoReveal:           opts.RandaoReveal,
-					Graffiti:               [32]byte(providerGraffiti),
+					Graffiti:               graffiti,
 					SkipRandaoVerification: opts.SkipRandaoVerification,
 				}
 			}
